@@ -124,7 +124,9 @@ func (pcks PublicKeySwitchProtocol) AggregateShares(share1, share2 PublicKeySwit
 // KeySwitch performs the actual keyswitching operation on a ciphertext ct and put the result in opOut
 func (pcks PublicKeySwitchProtocol) KeySwitch(ctIn *rlwe.Ciphertext, combined PublicKeySwitchShare, opOut *rlwe.Ciphertext) {
 
-	level := ctIn.Level()
+	// See KeySwitchProtocol.KeySwitch: the result is at the level of the shares when they
+	// were allocated below the level of the ciphertext.
+	level := utils.Min(ctIn.Level(), combined.Value[0].Level())
 
 	if ctIn != opOut {
 		opOut.Resize(ctIn.Degree(), level)
@@ -134,6 +136,10 @@ func (pcks PublicKeySwitchProtocol) KeySwitch(ctIn *rlwe.Ciphertext, combined Pu
 	pcks.params.RingQ().AtLevel(level).Add(ctIn.Value[0], combined.Value[0], opOut.Value[0])
 
 	opOut.Value[1].CopyLvl(level, combined.Value[1])
+
+	if ctIn == opOut {
+		opOut.Resize(opOut.Degree(), level)
+	}
 }
 
 // ShallowCopy creates a shallow copy of [PublicKeySwitchProtocol] in which all the read-only data-structures are
